@@ -108,11 +108,9 @@ func runC06(c *Ctx) {
 			td := p.ConstVal(pkgResource, "PhaseTearingDown")
 			c.MustCut("R06.4", "iteration ends without Teardown ⊣ {not owned, touched}", body, IsReturn, CutSpec{Nodes: p.CallTo(gTeardown),
 				Edges: FactEdge("ne(call:(pkg/resource.Metadata).Owner(*),call:(*pkg/controller/generic.NamedController).Name(*))", "true(lookup(*.touchedOutputIDs,*)#1)")}, 1)
-			c.MustCut("R06.4", "touched lookup ⊣ {phase != TearingDown}", body, func(in ssa.Instruction) bool {
-				l, ok := in.(*ssa.Lookup)
-
-				return ok && LoadsField(l.X, "runState", "touchedOutputIDs")
-			}, CutSpec{Edges: FactEdge("ne(call:(pkg/resource.Metadata).Phase(*)," + td + ")")}, 1)
+			// ... and running: the same escape needs the phase != TearingDown edge as well (in either order)
+			c.MustCut("R06.4", "touched lookup ⊣ {phase != TearingDown}", body, IsReturn, CutSpec{Nodes: p.CallTo(gTeardown),
+				Edges: FactEdge("ne(call:(pkg/resource.Metadata).Owner(*),call:(*pkg/controller/generic.NamedController).Name(*))", "ne(call:(pkg/resource.Metadata).Phase(*),"+td+")")}, 1)
 		}
 
 		// trailing loop
@@ -199,7 +197,7 @@ func runC06(c *Ctx) {
 			}
 
 			a0 := p.ArgDesc(calls[0], 0)
-			ok = lit && ns && ty && (Glob("call:"+gWriterModify[:len(gWriterModify)-1]+"*", a0) || a0 == "*free:var:err" || a0 == "*var:err")
+			ok = lit && ns && ty && (Glob("call:"+gWriterModify[:len(gWriterModify)-1]+"*", a0) || p.MayHoldCall(CallArgs(calls[0])[0], gWriterModify))
 		}
 
 		c.Check(ok, "R06.6", FuncName(f)+" :: 'conflict, skip' is IsConflictError(Modify err, WithResourceNamespace(out), WithResourceType(out))", fpos(f), "scoped to the primary output",
@@ -230,11 +228,12 @@ func runC06(c *Ctx) {
 		reset := p.CallTo("(pkg/controller.Runtime).ResetRestartBackoff")
 		c.MustCut("R06.7", "ResetRestartBackoff ⊣ {multiErr.ErrorOrNil() == nil}", f, reset, CutSpec{Edges: FactEdge("nil(call:(*github.com/hashicorp/go-multierror.Error).ErrorOrNil(*")}, 1)
 		c.MustCut("R06.7", "ResetRestartBackoff ⊣ {processInputs ok, cleanupOutputs ok}", f, reset, CutSpec{Edges: FactEdge("nil(call:(*" + pkgTransform + ".Controller[*]).cleanupOutputs(*")}, 1)
-		c.NoReach("R06.7", "accumulated error ⇒ returned", f, p.EdgeSuccs(f, "nonnil(call:(*github.com/hashicorp/go-multierror.Error).ErrorOrNil(*"), 1, OrInstr(reset, func(in ssa.Instruction) bool { _, ok := in.(*ssa.Select); return ok }), CutSpec{})
+		c.MustFollow("R06.7", "accumulated error ⇒ returned", f, p.CallTo("(*github.com/hashicorp/go-multierror.Error).ErrorOrNil"), OrInstr(reset, func(in ssa.Instruction) bool { _, ok := in.(*ssa.Select); return ok }),
+			CutSpec{Edges: FactEdge("nil(call:(*github.com/hashicorp/go-multierror.Error).ErrorOrNil(*")}, 1)
 	}
 
 	if f := p.Method(pkgCleanup, "Controller", "Run"); c.NeedFunc("R06.7", f, "cleanup.Run") {
-		c.MustCut("R06.7", "cleanup: ResetRestartBackoff ⊣ {no error accumulated}", f, p.CallTo("(pkg/controller.Runtime).ResetRestartBackoff"), CutSpec{Edges: FactEdge("nil(*var:multiErr)", "nil(phi(*")}, 1)
+		c.MustCut("R06.7", "cleanup: ResetRestartBackoff ⊣ {no error accumulated}", f, p.CallTo("(pkg/controller.Runtime).ResetRestartBackoff"), CutSpec{Edges: FactEdge("nil(*var:error)", "nil(*var:error#*)", "nil(phi(*")}, 1)
 	}
 
 	_ = fmt.Sprint
